@@ -500,7 +500,8 @@ def tok_build(rec, i):
         elif shift == 0:
             tr.append((tok_py(x["tok"]), x["s"], x["s"] + x["d"]))
         else:
-            tr.append((tok_py(x["tok"]), x["s"] / 1000.0, (x["s"] + x["d"]) / 1000.0))
+            u = 1000.0 * rec.get("upm", 1)
+            tr.append((tok_py(x["tok"]), x["s"] / u, (x["s"] + x["d"]) / u))
     token2id = id2token = None
     unk = None
     if rec["map"] != "none":
@@ -521,7 +522,7 @@ def check_tok_case(ctx, rec, i):
     data = _data()
     tt, ids, tr, token2id, id2token, unk = tok_build(rec, i)
     shift = rec["shift"]
-    fs = float(shift) if shift else None
+    fs = float(shift) / rec.get("upm", 1) if shift else None
     case = dict(fam="tok", rec=rec, i=i, python=repr(tr), token2id=repr(token2id), unk=repr(unk), frame_shift_ms=fs)
     try:
         tok = data.transcript_to_token(tr, token2id, fs, unk, rec["skip"])
@@ -562,7 +563,7 @@ def check_tok_case(ctx, rec, i):
         if not timed:
             ctx.violation(dict(site="token_to_transcript", kind="times"), "item %d: times lost: %r (written %r)" % (k, b, tr[k]), case)
             return
-        sc = 1000.0 if shift else 1.0
+        sc = 1000.0 * rec.get("upm", 1) if shift else 1.0
         s, e = b[1] * sc, b[2] * sc
         eps = 1e-6
         if not (bd[0] - eps <= s <= bd[1] + eps and bd[2] - eps <= e <= bd[3] + eps and s <= e + eps):
@@ -577,7 +578,7 @@ def check_tok_case(ctx, rec, i):
 def check_tok(ctx, recs):
     for i, rec in enumerate(recs):
         timed = any(x["s"] >= 0 for x in rec["tr"])
-        ctx.case(key=("tok", rec["tr"], rec["map"], rec["unk"], rec["shift"], rec["skip"]),
+        ctx.case(key=("tok", rec["tr"], rec["map"], rec["unk"], rec["shift"], rec["skip"], rec.get("upm", 1)),
                  nontrivial=bool(rec["tr"]) and (rec["map"] != "none" or (timed and rec["shift"] > 0)),
                  sample=dict(fam="tok", transcript_ms=rec["tr"], token_map=rec["map"], unk=rec["unk"],
                              frame_shift_ms=rec["shift"], skip_frame_times=rec["skip"], tensor_rows=rec["rows"],
